@@ -10,7 +10,7 @@ from mc import lib, obo, refdata
 PROPERTY = 'C10'
 RULE = ('complete vocabulary space: every non-obsolete entry of unimod.obo, psi-mod.obo, xlmod.obo and every '
         'monosaccharide (read by an independent OBO reader) x every documented spelling x 4 observations; generic forms: '
-        'all formulas of <=3 terms over {C,H,N,O,13C,2H,Na} x counts {-2,1,2,12,1.5}, all glycans of <=3 terms over '
+        'all formulas of <=3 terms (any order, a symbol may be written more than once) over {C,H,N,O,13C,2H,Na} x counts {-2,1,2,12,1.5}, all glycans of <=3 terms over '
         '{Hex,HexNAc,Fuc,Neu5Ac} x {1,2,3}, prefixed signed shifts, decorations; a state = one vocabulary entry or one '
         'generic form; non-trivial = has at least two spellings / a non-empty formula')
 ASSUMPTIONS = ['"same error" = every spelling raises some ValueError subclass',
@@ -80,7 +80,7 @@ def gen(shard, tier):
     elif shard['kind'] == 'formula':
         a = shard['first']
         for m in range(1, 4):
-            for rest in itertools.combinations(range(a + 1, len(FEL)), m - 1):
+            for rest in itertools.product(range(len(FEL)), repeat=m - 1):   # any order, symbols may repeat
                 els = [a] + list(rest)
                 for counts in itertools.product(range(len(FCOUNT)), repeat=m):
                     yield {'kind': 'formula', 'els': els, 'counts': list(counts)}, m, True
